@@ -12,11 +12,14 @@
 //                                     65-byte signature Substrate passes; gossamer reads 64 bytes)
 //   hrec   <msg32> <sig65>            ext_crypto_secp256k1_ecdsa_recover_version_1 and _version_2
 //   hrecc  <msg32> <sig65>            ext_crypto_secp256k1_ecdsa_recover_compressed_version_1 and _2
+//   hsr1   <key32> <message> <sig64>  ext_crypto_sr25519_verify_version_1
+//   hsr2   <key32> <message> <sig64>  ext_crypto_sr25519_verify_version_2
 // observed:
 //   hhash  -> <blake2_128> <blake2_256> <twox_64> <twox_128> <twox_256> <keccak_256> <sha2_256>
-//   hed, hecdsa -> 0 | 1
-//   hrec*  -> <key hex> | err     (SCALE Result: first byte 0 = Ok followed by the key; otherwise err;
-//                                  "differ" if version 1 and 2 disagree)
+//   hed, hecdsa, hsr1, hsr2 -> 0 | 1
+//   hrec*  -> <v1> <v2>, each <key hex> | err  (SCALE Result: first byte 0 = Ok followed by the key;
+//                                  otherwise err), followed by " mut" if the call changed the
+//                                  signature bytes in guest memory
 package wazero_runtime
 
 import (
@@ -28,10 +31,13 @@ import (
 	vu "github.com/ChainSafe/gossamer/internal/verifutil"
 	"github.com/ChainSafe/gossamer/lib/common"
 	"github.com/ChainSafe/gossamer/lib/crypto"
+	"github.com/ChainSafe/gossamer/lib/crypto/sr25519"
 	"github.com/ChainSafe/gossamer/lib/runtime"
 	"github.com/ChainSafe/gossamer/lib/runtime/allocator"
 	stded "crypto/ed25519"
+	schnorrkel "github.com/ChainSafe/go-schnorrkel"
 	ethcrypto "github.com/ethereum/go-ethereum/crypto"
+	"github.com/gtank/merlin"
 	"github.com/tetratelabs/wazero"
 	"github.com/tetratelabs/wazero/api"
 )
@@ -138,6 +144,20 @@ func c29HostRun(in string) string {
 			return "err:memwrite"
 		}
 		return vu.X(uint64(ext_crypto_ecdsa_verify_version_2(ctx, m, ptrs[0], newPointerSize(ptrs[1], uint32(len(msg))), ptrs[2])))
+	case (f[0] == "hsr1" || f[0] == "hsr2") && len(f) == 4:
+		pk, msg, sig := vu.UnHex(f[1]), vu.UnHex(f[2]), vu.UnHex(f[3])
+		if len(pk) != 32 || len(sig) != 64 {
+			return "err:badinput"
+		}
+		ptrs, ctx, ok := c29Place(m, sig, msg, pk)
+		if !ok {
+			return "err:memwrite"
+		}
+		fn := ext_crypto_sr25519_verify_version_1
+		if f[0] == "hsr2" {
+			fn = ext_crypto_sr25519_verify_version_2
+		}
+		return vu.X(uint64(fn(ctx, m, ptrs[0], newPointerSize(ptrs[1], uint32(len(msg))), ptrs[2])))
 	case (f[0] == "hrec" || f[0] == "hrecc") && len(f) == 3:
 		msg, sig := vu.UnHex(f[1]), vu.UnHex(f[2])
 		if len(msg) != 32 || len(sig) != 65 {
@@ -152,12 +172,16 @@ func c29HostRun(in string) string {
 				ext_crypto_secp256k1_ecdsa_recover_compressed_version_1, ext_crypto_secp256k1_ecdsa_recover_compressed_version_2}
 		}
 		var res []string
+		mut := ""
 		for _, fn := range fns {
 			ptrs, ctx, ok := c29Place(m, sig, msg)
 			if !ok {
 				return "err:memwrite"
 			}
 			ret := fn(ctx, m, ptrs[0], ptrs[1])
+			if after, ok := m.Memory().Read(ptrs[0], 65); !ok || vu.Hex(after) != vu.Hex(sig) {
+				mut = " mut"
+			}
 			p, n := splitPointerSize(ret)
 			b, ok := m.Memory().Read(p, n)
 			if !ok || len(b) == 0 {
@@ -171,15 +195,201 @@ func c29HostRun(in string) string {
 				res = append(res, "err")
 			}
 		}
-		if res[0] != res[1] {
-			return "differ"
-		}
-		return res[0]
+		return res[0] + " " + res[1] + mut
 	}
 	return "err:badinput"
 }
 
+// c29SrSign: a schnorrkel signature with a deterministic nonce; old = schnorrkel 0.1.1 transcript
+// and labels (see props/C29/harness_sr_test.go)
+func c29SrSign(kp *sr25519.Keypair, msg, nonce64 []byte, old, mark bool) []byte {
+	var key [32]byte
+	copy(key[:], kp.Private().Encode())
+	x, err := schnorrkel.ScalarFromBytes(key)
+	if err != nil {
+		panic(err)
+	}
+	r, _ := schnorrkel.NewRandomScalar()
+	r.FromUniformBytes(nonce64)
+	R, _ := schnorrkel.NewRandomElement()
+	R.ScalarBaseMult(r)
+	rEnc := R.Encode(nil)
+	var t *merlin.Transcript
+	lpk, lr, lc := "sign:pk", "sign:R", "sign:c"
+	if old {
+		t = merlin.NewTranscript("substrate")
+		t.AppendMessage([]byte("sign-bytes"), msg)
+		lpk, lr, lc = "pk", "no", ""
+	} else {
+		t = schnorrkel.NewSigningContext(sr25519.SigningContext, msg)
+	}
+	t.AppendMessage([]byte("proto-name"), []byte("Schnorr-sig"))
+	t.AppendMessage([]byte(lpk), kp.Public().Encode())
+	t.AppendMessage([]byte(lr), rEnc)
+	k, _ := schnorrkel.NewRandomScalar()
+	k.FromUniformBytes(t.ExtractBytes([]byte(lc), 64))
+	s := k.Multiply(k, x).Add(k, r)
+	sig := append(append([]byte{}, rEnc...), s.Encode(nil)...)
+	if mark {
+		sig[63] |= 128
+	}
+	return sig
+}
+
 var c29HostLens = []int{0, 1, 31, 32, 63, 64, 127, 128, 129, 135, 136, 137, 255, 256, 300}
+
+// c29HostModes is the number of case classes of c29HostCase; the generator emits one case of
+// every class first (so that every host function and every branch of its model is reached in
+// every run) and then n cases of random classes.
+const c29HostModes = 24
+
+func c29HostCase(r *vu.RNG, mode int, emit func(string)) {
+	h := vu.Hex
+	switch {
+	case mode == 0: // hashes
+		l := c29HostLens[r.Intn(len(c29HostLens))]
+		if r.Chance(1, 2) {
+			l = r.Intn(400)
+		}
+		emit("hhash " + h(r.Bytes(l)))
+	case mode <= 2: // ed25519: 1 honest, 2 tampered
+		priv := stded.NewKeyFromSeed(r.Bytes(32))
+		pk := []byte(priv.Public().(stded.PublicKey))
+		msg := r.Bytes(r.Intn(100))
+		sig := stded.Sign(priv, msg)
+		if mode == 2 {
+			sig[r.Intn(64)] ^= 1 << uint(r.Intn(8))
+		}
+		emit("hed " + h(pk) + " " + h(msg) + " " + h(sig))
+	case mode <= 13: // secp256k1
+		d := r.Bytes(32)
+		d[0] &= 0x7f
+		d[31] |= 1
+		priv, err := ethcrypto.ToECDSA(d)
+		if err != nil {
+			return
+		}
+		msg := r.Bytes(r.Intn(100))
+		hash, _ := common.Blake2bHash(msg)
+		sig, err := ethcrypto.Sign(hash[:], priv)
+		if err != nil {
+			return
+		}
+		cpk := ethcrypto.CompressPubkey(&priv.PublicKey)
+		flip := func() []byte { // high-S twin with the flipped recovery id
+			s := new(c29Int).sub(sig[32:64])
+			return append(append(append([]byte{}, sig[:32]...), s...), sig[64]^1)
+		}
+		switch mode {
+		case 3:
+			emit("hecdsa " + h(cpk) + " " + h(msg) + " " + h(sig))
+		case 4: // wrong recovery id: Substrate recovers another key
+			s2 := append([]byte{}, sig...)
+			s2[64] ^= 1
+			emit("hecdsa " + h(cpk) + " " + h(msg) + " " + h(s2))
+		case 5: // high S with the matching id: valid for Substrate
+			emit("hecdsa " + h(cpk) + " " + h(msg) + " " + h(flip()))
+		case 6: // tampered
+			s2 := append([]byte{}, sig...)
+			s2[r.Intn(64)] ^= 1 << uint(r.Intn(8))
+			emit("hecdsa " + h(cpk) + " " + h(msg) + " " + h(s2))
+		case 7: // recovery id out of range (Substrate's verify takes 0..3 only)
+			s2 := append([]byte{}, sig...)
+			s2[64] = []byte{4, 27, 28, 255}[r.Intn(4)]
+			emit("hecdsa " + h(cpk) + " " + h(msg) + " " + h(s2))
+		case 8:
+			emit("hrec " + h(hash[:]) + " " + h(sig))
+		case 9: // Ethereum-style id 27/28: the host function rewrites the byte in guest memory
+			s2 := append([]byte{}, sig...)
+			s2[64] += 27
+			if r.Chance(1, 2) {
+				emit("hrec " + h(hash[:]) + " " + h(s2))
+			} else {
+				emit("hrecc " + h(hash[:]) + " " + h(s2))
+			}
+		case 10:
+			emit("hrecc " + h(hash[:]) + " " + h(sig))
+		case 11:
+			emit("hrec " + h(hash[:]) + " " + h(flip()))
+		case 12:
+			s2 := r.Bytes(65)
+			s2[64] = []byte{0, 1, 2, 3, 4, 5, 26, 27, 30, 31, 255}[r.Intn(11)]
+			emit("hrecc " + h(hash[:]) + " " + h(s2))
+		default: // r or s not below the group order: version 1 of Substrate reduces them, version 2 rejects
+			small := append(make([]byte, 16), r.Bytes(16)...)
+			small[16] &= 0x3f
+			over := new(c29Int).addOrder(small)
+			s2 := append([]byte{}, sig...)
+			if r.Chance(2, 3) {
+				copy(s2[:32], over) // r + n with r < 2^126: x = r may or may not be on the curve
+				s2[64] = byte(r.Intn(2))
+			} else {
+				copy(s2[32:64], over)
+			}
+			if r.Chance(1, 2) {
+				emit("hrec " + h(hash[:]) + " " + h(s2))
+			} else {
+				emit("hrecc " + h(hash[:]) + " " + h(s2))
+			}
+		}
+	default: // sr25519
+		kp, err := sr25519.NewKeypairFromSeed(r.Bytes(32))
+		if err != nil {
+			return
+		}
+		pk := kp.Public().Encode()
+		msg := r.Bytes(r.Intn(120))
+		zero := make([]byte, 32)
+		c := func(v int, pk, msg, sig []byte) {
+			emit("hsr" + string(rune('0'+v)) + " " + h(pk) + " " + h(msg) + " " + h(sig))
+		}
+		tamper := func(m []byte) []byte {
+			m2 := append([]byte{}, m...)
+			if len(m2) == 0 {
+				return []byte{1}
+			}
+			m2[r.Intn(len(m2))] ^= 1 << uint(r.Intn(8))
+			return m2
+		}
+		idSig := func(mark bool) []byte { // R = s*B: valid under the identity key
+			s, _ := schnorrkel.NewRandomScalar()
+			s.FromUniformBytes(r.Bytes(64))
+			R, _ := schnorrkel.NewRandomElement()
+			R.ScalarBaseMult(s)
+			sig := append(R.Encode(nil), s.Encode(nil)...)
+			if mark {
+				sig[63] |= 128
+			}
+			return sig
+		}
+		switch mode {
+		case 14: // version 1, current scheme
+			c(1, pk, msg, c29SrSign(kp, msg, r.Bytes(64), false, true))
+		case 15: // version 1, schnorrkel 0.1.1 signature
+			c(1, pk, msg, c29SrSign(kp, msg, r.Bytes(64), true, false))
+		case 16: // version 1, tampered message (either scheme)
+			old := r.Chance(1, 2)
+			c(1, pk, tamper(msg), c29SrSign(kp, msg, r.Bytes(64), old, !old))
+		case 17: // version 1, current scheme with the marker bit cleared
+			c(1, pk, msg, c29SrSign(kp, msg, r.Bytes(64), false, false))
+		case 18: // version 1, identity key, unmarked
+			c(1, zero, msg, idSig(false))
+		case 19:
+			c(2, pk, msg, c29SrSign(kp, msg, r.Bytes(64), false, true))
+		case 20:
+			c(2, pk, tamper(msg), c29SrSign(kp, msg, r.Bytes(64), false, true))
+		case 21: // version 2, identity key: R = s*B
+			c(2, zero, msg, idSig(true))
+		case 22: // version 2, identity key, forged (R is some other point)
+			sig := idSig(true)
+			copy(sig[:32], pk)
+			c(2, zero, msg, sig)
+		default: // version 2, signature without the marker bit (pre-audit or cleared)
+			old := r.Chance(1, 2)
+			c(2, pk, msg, c29SrSign(kp, msg, r.Bytes(64), old, false))
+		}
+	}
+}
 
 func c29HostGen(r *vu.RNG, n int, emit func(string)) {
 	h := vu.Hex
@@ -190,70 +400,14 @@ func c29HostGen(r *vu.RNG, n int, emit func(string)) {
 		}
 		emit("hhash " + h(b))
 	}
+	for mode := 1; mode < c29HostModes; mode++ {
+		c29HostCase(r, mode, emit)
+	}
 	for i := 0; i < n; i++ {
-		switch r.Intn(10) {
-		case 0, 1, 2, 3: // hashes
-			l := c29HostLens[r.Intn(len(c29HostLens))]
-			if r.Chance(1, 2) {
-				l = r.Intn(400)
-			}
-			emit("hhash " + h(r.Bytes(l)))
-		case 4: // ed25519
-			priv := stded.NewKeyFromSeed(r.Bytes(32))
-			pk := []byte(priv.Public().(stded.PublicKey))
-			msg := r.Bytes(r.Intn(100))
-			sig := stded.Sign(priv, msg)
-			if r.Chance(1, 3) {
-				sig[r.Intn(64)] ^= 1 << uint(r.Intn(8))
-			}
-			emit("hed " + h(pk) + " " + h(msg) + " " + h(sig))
-		default: // secp256k1
-			d := r.Bytes(32)
-			d[0] &= 0x7f
-			d[31] |= 1
-			priv, err := ethcrypto.ToECDSA(d)
-			if err != nil {
-				continue
-			}
-			msg := r.Bytes(r.Intn(100))
-			hash, _ := common.Blake2bHash(msg)
-			sig, err := ethcrypto.Sign(hash[:], priv)
-			if err != nil {
-				continue
-			}
-			cpk := ethcrypto.CompressPubkey(&priv.PublicKey)
-			flip := func() []byte { // high-S twin with the flipped recovery id
-				s := new(c29Int).sub(sig[32:64])
-				return append(append(append([]byte{}, sig[:32]...), s...), sig[64]^1)
-			}
-			switch r.Intn(9) {
-			case 0, 1:
-				emit("hecdsa " + h(cpk) + " " + h(msg) + " " + h(sig))
-			case 2: // wrong recovery id: Substrate recovers another key
-				s2 := append([]byte{}, sig...)
-				s2[64] ^= 1
-				emit("hecdsa " + h(cpk) + " " + h(msg) + " " + h(s2))
-			case 3: // high S with the matching id: valid for Substrate
-				emit("hecdsa " + h(cpk) + " " + h(msg) + " " + h(flip()))
-			case 4: // tampered
-				s2 := append([]byte{}, sig...)
-				s2[r.Intn(64)] ^= 1 << uint(r.Intn(8))
-				emit("hecdsa " + h(cpk) + " " + h(msg) + " " + h(s2))
-			case 5:
-				s2 := append([]byte{}, sig...)
-				if r.Chance(1, 2) {
-					s2[64] += 27
-				}
-				emit("hrec " + h(hash[:]) + " " + h(s2))
-			case 6:
-				emit("hrecc " + h(hash[:]) + " " + h(sig))
-			case 7:
-				emit("hrec " + h(hash[:]) + " " + h(flip()))
-			default:
-				s2 := r.Bytes(65)
-				s2[64] = byte(r.Intn(6))
-				emit("hrecc " + h(hash[:]) + " " + h(s2))
-			}
+		if r.Chance(1, 3) {
+			c29HostCase(r, 0, emit)
+		} else {
+			c29HostCase(r, 1+r.Intn(c29HostModes-1), emit)
 		}
 	}
 }
@@ -263,6 +417,18 @@ type c29Int struct{}
 
 var c29Order = []byte{0xff, 0xff, 0xff, 0xff, 0xff, 0xff, 0xff, 0xff, 0xff, 0xff, 0xff, 0xff, 0xff, 0xff, 0xff, 0xfe,
 	0xba, 0xae, 0xdc, 0xe6, 0xaf, 0x48, 0xa0, 0x3b, 0xbf, 0xd2, 0x5e, 0x8c, 0xd0, 0x36, 0x41, 0x41}
+
+// addOrder computes s + n (s small enough not to overflow 32 bytes)
+func (*c29Int) addOrder(s []byte) []byte {
+	out := make([]byte, 32)
+	carry := 0
+	for i := 31; i >= 0; i-- {
+		v := int(c29Order[i]) + int(s[i]) + carry
+		out[i] = byte(v)
+		carry = v >> 8
+	}
+	return out
+}
 
 func (*c29Int) sub(s []byte) []byte {
 	out := make([]byte, 32)
